@@ -6,7 +6,7 @@
     and followed by Print Assumptions (must be closed under the global context). *)
 From Coq Require Import List Arith Bool Permutation.
 Import ListNotations.
-Require Import Fggs.Model.SCC Fggs.Proofs.SCC_ntgraph Fggs.Proofs.SCC_checker Fggs.Proofs.SCC_tarjan.
+Require Import Fggs.Model.SCC Fggs.Proofs.SCC_ntgraph Fggs.Proofs.SCC_checker Fggs.Proofs.SCC_tarjan Fggs.Proofs.SCC_unique.
 Require Import Fggs.Generated.SCC_gen Fggs.GeneratedProofs.SCC_gen_refines.
 
 (** the generated [scc] computes what the hand-written model computes, on every closed graph *)
@@ -42,6 +42,22 @@ Theorem C19_gen_tarjan_correct :
   forall g, closed g = true -> exists cs, gen_scc g = Some cs /\ scc_ok g cs = true.
 Proof. intros g Hc. rewrite (gen_scc_refines g Hc). exact (tarjan_correct g Hc). Qed.
 Print Assumptions C19_gen_tarjan_correct.
+
+(** C19_tarjan_dependencies_before / C19_accepted_components_are_tarjan, about the generated function *)
+Theorem C19_gen_tarjan_dependencies_before :
+  forall g, closed g = true ->
+    exists cs, gen_scc g = Some cs /\
+      forall l1 c l2 u v, cs = l1 ++ c :: l2 -> In u c -> path g u v -> In v c \/ In v (concat l1).
+Proof. intros g Hc. rewrite (gen_scc_refines g Hc). exact (tarjan_deps_before g Hc). Qed.
+Print Assumptions C19_gen_tarjan_dependencies_before.
+
+Theorem C19_gen_accepted_components_are_tarjan :
+  forall g cs', closed g = true -> scc_ok g cs' = true ->
+    exists cs, gen_scc g = Some cs /\
+      (forall c, In c cs -> exists c', In c' cs' /\ forall v, In v c <-> In v c') /\
+      (forall c', In c' cs' -> exists c, In c cs /\ forall v, In v c' <-> In v c).
+Proof. intros g cs' Hc Hok. rewrite (gen_scc_refines g Hc). exact (scc_ok_components_are_tarjan g cs' Hc Hok). Qed.
+Print Assumptions C19_gen_accepted_components_are_tarjan.
 
 (** C19_nonterminal_graph_vertices / _edges, about the generated function *)
 Theorem C19_gen_nonterminal_graph_vertices :
